@@ -55,7 +55,10 @@ def generate(seed: int, tier: str) -> Dict[str, Any]:
             if r.chance(0.3):
                 ops.append({"op": "clock", "ms": r.choice([0, 1, 10, 49, 50, 200, 1000, -100, -5000])})
             else:
-                ops.append({"op": "pick", "rotate": r.chance(0.5)})
+                # what the slice reports as consumed when it yields: nothing, all-zero counters (a zero stage budget hit at T1
+                # with nothing to propagate), or real work - the bookkeeping charges the turn all the same
+                ops.append({"op": "pick", "rotate": r.chance(0.5),
+                            "consumed": r.choice([{}, {}, {"ms": 0, "t1_iters": 0, "t1_pops": 0}, {"ms": 0}, {"ms": 12, "t1_pops": 3}, {"t2_k": 2, "ms": 1}])})
         return {"target": "core", "agents": agents, "policy": r.choice(["round_robin", "fair_queue"]), "mct": r.randint(1, 3),
                 "aging_ms": r.choice([0, 1, 50, 200]), "ops": ops, "rotate_mode": r.choice(["never", "always", "per-op"])}
     world = E.gen_world(rng.stream("world"), n_agents=r.randint(1, 2), max_graphs=1, odd_ids=False)
@@ -131,7 +134,7 @@ def _core(p: Dict[str, Any], stats: Dict[str, int]) -> List[Dict[str, Any]]:
             stats["resets"] = stats.get("resets", 0) + 1
             if a1 != min(before["queue"]) or r1 != "RESET_CONSEC":
                 bad("reset-pick", "all saturated: expected lexicographic minimum %s with RESET_CONSEC; %s" % (min(before["queue"]), ctxs))
-        on_yield(ctx, st, a1, {}, "QUANTUM_EXCEEDED", fair, reset=(r1 == "RESET_CONSEC"))
+        on_yield(ctx, st, a1, dict(op.get("consumed") or {}), "QUANTUM_EXCEEDED", fair, reset=(r1 == "RESET_CONSEC"))
         if r1 == "RESET_CONSEC" and any(v != 0 for v in st["consec_turns"].values()):
             bad("reset-not-applied", "%s -> %s" % (ctxs, st["consec_turns"]))
         if r1 != "RESET_CONSEC" and st["consec_turns"][a1] != before["consec_turns"][a1] + 1:
